@@ -254,6 +254,17 @@ func (r *SeqRun) oracle(touched []string, final bool) *Violation {
 		if v := r.recheckMarks(); v != nil {
 			return v
 		}
+	case "C12":
+		for _, n := range names {
+			if v := CheckLatest(r.H, r.M, n, r.Pool, nil); v != nil {
+				v.Property = "C12"
+				return v
+			}
+			if v := CheckFeed(r.H, r.M, n, nil); v != nil {
+				v.Property = "C12"
+				return v
+			}
+		}
 	case "C03":
 		lim := []int{1, 2}
 		v, q := CheckRelations(r.H, r.M, r.Pool, r.Preds, allScopes(r.M.Names()), lim, r.knownReporter())
@@ -287,6 +298,9 @@ func RunStoreScenario(sc *Scenario) (vd *Verdict) {
 		vd.TraceHash = r.TraceHash()
 		vd.SimNS = int64(time.Since(r.Start))
 		vd.Nontrivial = r.Stats["commits"] >= 2
+		if sc.Property == "C12" {
+			vd.Nontrivial = r.Stats["compactions"] >= 1 && r.Stats["commits"] >= 2
+		}
 	}()
 	checkEvery := int(sc.Knob("checkEvery", 1))
 	for i := range sc.Ops {
@@ -358,6 +372,45 @@ func RunStoreScenario(sc *Scenario) (vd *Verdict) {
 				return
 			}
 			r.ev("read r=%d lim=%d idx=%d", op.Reader, op.Limit, rd.Idx)
+		case "dup":
+			ds := r.H.Dataset(op.DS)
+			if ds == nil {
+				break
+			}
+			ok, err := ds.VerifInjectDuplicate(r.H.curie(op.S), time.Now().UnixNano())
+			if err != nil {
+				fail(viol(sc.Property, "harness", "invalid", "inject duplicate: %v", err), i)
+				return
+			}
+			if ok {
+				d := r.M.DS[op.DS]
+				if cur := d.LatestOf(markerToFull(op.S)); cur != nil {
+					d.ForceAppend(cur)
+					r.Stats["legacy_duplicates"]++
+					r.ev("dup")
+				}
+			}
+			if v := r.oracle([]string{op.DS}, false); v != nil {
+				v.Signature = "after-dup:" + v.Signature
+				fail(v, i)
+				return
+			}
+		case "compact":
+			if r.H.Dataset(op.DS) == nil {
+				break
+			}
+			before := len(r.M.DS[op.DS].Versions)
+			if err := r.H.Compact(op.DS, op.N); err != nil {
+				fail(viol(sc.Property, "compaction", "compact-error", "compaction of %s failed: %v", op.DS, err), i)
+				return
+			}
+			r.Stats["compactions"]++
+			if v := r.CheckAfterCompaction(op.DS); v != nil {
+				fail(v, i)
+				return
+			}
+			r.Stats["versions_compacted"] += int64(before - len(r.M.DS[op.DS].Versions))
+			r.ev("compact removed=%d", before-len(r.M.DS[op.DS].Versions))
 		case "mark":
 			l, q, v := r.currentAnswers()
 			if v != nil {
